@@ -547,7 +547,8 @@ def cache_facts(repo):
     if len(fz) != 1:
         raise TranslationError("F21", "mapping_to_frozenset", "not found")
     src = ast.unparse(fz[0])
-    typed = "isinstance(value, (bool, int, float))" in src and "aggregation[key] = (type(value), value)" in src
+    typed = "isinstance(value, (bool, int, float))" in src and "aggregation[key] = (type(value), value)" in src \
+        and "isinstance(value, Sequence) and (not isinstance(value, _str_type))" in src      # a string is not the sequence of its characters
     for needle in ("isinstance(value, Mapping)", "isinstance(value, Sequence)", "isinstance(value, Set)", "return frozenset(aggregation.items())"):
         if needle not in src:
             raise TranslationError("F21", "mapping_to_frozenset", "case list changed: missing " + needle)
@@ -563,6 +564,66 @@ def cache_facts(repo):
                  and any(ast.unparse(t).startswith('SchemaValidator.') for t in getattr(st, 'targets', [getattr(st, 'target', None)]) if t is not None)]
     publish_last = len(assigns) == 1 and assigns[0] == len(body) - 1 and not mutations
     return {"cache_sites": sites, "cache_typed_scalars": typed, "lazy_publish_last": publish_last}
+
+
+def worklist_facts(repo):
+    """F12: the default-setter work-list of __normalize_default_fields as a list of shape tokens (fail-closed:
+    a statement that is not recognised becomes a token quoting it, which no documented list contains)."""
+    mod = parse(repo, 'cerberus/validator.py')
+    cls = find_class(mod, 'BareValidator')
+    fn = find_func(cls, '_BareValidator__normalize_default_fields') if any(
+        isinstance(n, ast.FunctionDef) and n.name == '_BareValidator__normalize_default_fields' for n in cls.body) \
+        else find_func(cls, '__normalize_default_fields')
+    loops = [st for st in fn.body if isinstance(st, ast.While)]
+    if len(loops) != 1:
+        raise TranslationError("F12", "__normalize_default_fields", "expected exactly one while loop")
+    loop = loops[0]
+    q = ast.unparse(loop.test)
+    toks = []
+    # what precedes the loop: the seen-set and the queue
+    pre = [ast.unparse(st) for st in fn.body[:fn.body.index(loop)]]
+    seen_names = [p.split(' = ')[0] for p in pre if p.endswith(' = set()')]
+    if len(seen_names) != 1:
+        raise TranslationError("F12", "__normalize_default_fields", "seen-set not found")
+    seen = seen_names[0]
+    qdefs = [p for p in pre if p.startswith(q + ' = ')]
+    if len(qdefs) != 1:
+        raise TranslationError("F12", "__normalize_default_fields", "queue definition not found")
+    toks.append("queue:" + ("empty_fields_with_default_setter_in_order"
+                if qdefs[0] == q + " = [x for x in empty_fields if 'default_setter' in schema[x]]" else "?" + qdefs[0]))
+    state = None
+    for st in loop.body:
+        s = ast.unparse(st)
+        if s == "field = %s.pop(0)" % q:
+            toks.append("pop_front")
+        elif isinstance(st, ast.Try):
+            if [ast.unparse(b) for b in st.body] == ["self._normalize_default_setter(mapping, schema, field)"] and not st.orelse and not st.finalbody:
+                toks.append("call")
+            else:
+                toks.append("?try:" + ";".join(ast.unparse(b) for b in st.body))
+            for h in st.handlers:
+                t = ast.unparse(h.type) if h.type is not None else "BaseException"
+                body = [ast.unparse(b) for b in h.body]
+                if body == ["%s.append(field)" % q]:
+                    act = "requeue_back"
+                elif body == ["self._error(field, errors.SETTING_DEFAULT_FAILED, str(e))"]:
+                    act = "file_own_field"
+                else:
+                    act = "?" + ";".join(body)
+                toks.append("except %s:%s" % (t, act))
+        elif isinstance(st, ast.Assign) and len(st.targets) == 1 and isinstance(st.targets[0], ast.Name) and state is None \
+                and q in ast.unparse(st.value):
+            state = st.targets[0].id
+            toks.append("state:" + ("hash_of_tuple" if ast.unparse(st.value) == "hash(tuple(%s))" % q else "?" + ast.unparse(st.value)))
+        elif isinstance(st, ast.If) and state is not None and ast.unparse(st.test) == "%s in %s" % (state, seen):
+            body = [ast.unparse(b) for b in st.body]
+            exp = ["for field in %s:\n    self._error(field, errors.SETTING_DEFAULT_FAILED, 'Circular dependencies of default setters.')" % q, "break"]
+            toks.append("seen:" + ("file_all_pending_and_stop" if body == exp else "?" + ";".join(body)))
+            orelse = [ast.unparse(b) for b in st.orelse]
+            toks.append("unseen:" + ("remember" if orelse == ["%s.add(%s)" % (seen, state)] else "?" + ";".join(orelse)))
+        else:
+            toks.append("?" + s)
+    return {"worklist": toks}
 
 
 def introspect(repo):
@@ -621,6 +682,7 @@ def to_coq(F):
     L.append("  f_sp_drops := %s;" % clist("(%s, %s)" % (cs(n), clist("%d%%nat" % i for i in l)) for n, l in F['sp_drops']))
     L.append("  f_forwards_update := %s;" % clist("(%s, %s)" % (cs(n), "true" if b else "false") for n, b in F['forwards_update']))
     L.append("  f_pipeline := %s;" % clist(map(cs, F['pipeline'])))
+    L.append("  f_worklist := %s;" % clist(map(cs, F['worklist'])))
     L.append("  f_resets := %s;" % clist(map(cs, F['resets'])))
     L.append("  f_validate_prologue := %s;" % clist(map(cs, F['validate_prologue'])))
     L.append("  f_cache_sites := %s;" % clist("(%s, %s)" % (cs(a), cs(b)) for a, b in F['cache_sites']))
@@ -639,6 +701,7 @@ def translate(repo):
     F.update(errors_facts(repo))
     F.update(validator_facts(repo))
     F.update(cache_facts(repo))
+    F.update(worklist_facts(repo))
     F.update(write_facts(repo))
     F.update(entry_facts(repo))
     F.update(introspect(repo))
